@@ -1015,25 +1015,25 @@ bool ScriptVM::Process(ScriptContext& context, uinttime_t interruptTime)
                     skipField();
                     eventCalled = true;
 
-                    for (uintptr_t i = 1; i <= count; i++)
+                    try
                     {
-                        Listener* const member = array.listenerAt(i);
-                        if (member)
+                        for (uintptr_t i = 1; i <= count; i++)
                         {
-                            // re-read the field operands for each member; copies the value
-                            m_CodePos = fieldPos;
-
-                            try
+                            Listener* const member = array.listenerAt(i);
+                            if (member)
                             {
+                                // re-read the field operands for each member; copies the value
+                                m_CodePos = fieldPos;
                                 loadStoreTop(eventSystem, member);
                             }
-                            catch (...)
-                            {
-                                // the value is consumed even though a member's setter refused it
-                                m_Stack.Pop();
-                                throw;
-                            }
                         }
+                    }
+                    catch (...)
+                    {
+                        // the value is consumed even though an element is no listener
+                        // or a member's setter refused it
+                        m_Stack.Pop();
+                        throw;
                     }
 
                     m_Stack.Pop();
